@@ -602,14 +602,16 @@ class C09(Prop):
             tag = ["trivial"] if n == 0 else []
             for content in (kinds if (ctx.thorough() or n % 8 == 0 or n < 24) else kinds[2:]):
                 out.append(Case("dec_chunks", key=key, aad=b"", cs=64, data=content, oracle=nopanic, tags=tag + ["junk"]))
-                out.append(Case("noise_dec", r=r, rpk=rpk, prologue=b"egk\x10", msg=content, oracle=nopanic, tags=tag + ["junk"]))
+                if n < 100 or n % 16 == 0 or ctx.thorough():     # beyond the length guard each case costs the model an X25519
+                    out.append(Case("noise_dec", r=r, rpk=rpk, prologue=b"egk\x10", msg=content, oracle=nopanic, tags=tag + ["junk"]))
                 if n <= 64 or n % 8 == 0:
                     out.append(Case("open", key=key, nonce=bytes(12), ad=b"", x=content, oracle=nopanic, tags=tag + ["junk"]))
                     out.append(Case("nopen", key=key, n=rng.getrandbits(40), ad=b"", x=content, oracle=nopanic, tags=tag + ["junk"]))
             # authentic prefixes reach deeper code
             out.append(Case("key_dec", r=r, rpk=rpk, data=KF[:n], oracle=nopanic, tags=tag + ["auth-prefix"]))
             out.append(Case("pass_dec", pw=b"pw", data=PF[:n], oracle=nopanic, tags=tag + ["auth-prefix"]))
-            out.append(Case("noise_dec", r=r, rpk=rpk, prologue=b"egk\x10", msg=NM[:n], oracle=nopanic, tags=tag + ["auth-prefix"]))
+            if n < 100 or n % 8 == 0 or n >= 120 and n <= 136 or ctx.thorough():
+                out.append(Case("noise_dec", r=r, rpk=rpk, prologue=b"egk\x10", msg=NM[:n], oracle=nopanic, tags=tag + ["auth-prefix"]))
             out.append(Case("dec_chunks", key=key, aad=b"", cs=64, data=CF[:n], oracle=nopanic, tags=tag + ["auth-prefix"]))
             if n <= len(CT):
                 out.append(Case("open", key=key, nonce=bytes(12), ad=b"ad", x=CT[:n], oracle=nopanic, tags=tag + ["auth-prefix"]))
